@@ -56,6 +56,7 @@ def gen_cases(seed, tier):
     import random
     cases += PC.state_stream(random.Random(seed + 79), 400 if tier == 'quick' else 6000, modes=(True,))
     cases += PC.twin_cases(random.Random(seed + 81), 250 if tier == 'quick' else 4000, tolerant=(True,))
+    cases += PC.deep_cases(True)
     # a context whose macros take comma-separated list arguments (real code only: that parser is outside the model)
     import docgen
     for s in docgen.exhaustive(docgen.SYM_COMMASEP, 3 if tier == 'quick' else 4):
@@ -124,6 +125,8 @@ def oracle(c):
     rt = PC.real_parse(d)
     if rt[0] != 'ok':
         e = rt[1]
+        if isinstance(e, RecursionError) and d.get('origin') == 'nesting-beyond-interpreter-stack':
+            return ('tolerant-raised-RecursionError:nesting-beyond-interpreter-stack', {'length': len(s)})
         return ('tolerant-raised-%s' % type(e).__name__, {'message': str(e)[:200]})
     tnl = rt[1]
     if tnl is None:
